@@ -33,6 +33,7 @@ theorem rstep_msgs (cfg : RCfg) (s : RR) (e : REv) : ∃ d, (rstep cfg s e).msgs
     · cases e with
       | data d off' oc => cases oc <;> exact ⟨d, rfl⟩
       | cutAfter d => exact ⟨d, rfl⟩
+      | ctxCanceled d => exact ⟨d, rfl⟩
       | kerr code offs =>
         simp only [onKerr]
         split <;> (try split) <;> (try split) <;> exact ⟨[], by simp [toTop, again]⟩
@@ -151,12 +152,12 @@ theorem front_invariant_aux (log : List Rec) : ∀ (es : List FEv) (s s' : FS) (
         rw [← hr.1]
         exact ih s1 s2 ms' (finv_step h hs).1 hq
 
-theorem inv_prefix {log : List Rec} (hlog : log.Pairwise (fun a b => a.1 < b.1)) {s : RR} {o0 : Int} (h1 : RInv log s)
-    (h2 : SInv log o0 s) (hne : o0 ≠ -1) : s.msgs <+: feed log o0 := by
+theorem inv_prefix {log : List Rec} (hlog : log.Pairwise (fun a b => a.1 < b.1)) {s : RR} {o0 fr : Int} (h1 : RInv log s)
+    (h2 : SInv log o0 fr s) : s.msgs <+: feed log fr := by
   cases hs : s.start with
   | none => rw [(h1.nostart hs).1]; exact List.nil_prefix
   | some st =>
-    rw [← h2.set st hs hne]
+    rw [← h2.set st hs]
     exact loop_msgs_prefix hlog h1 st hs
 
 theorem lookup_setLoop_same (t : Nat) (s' : RR) : ∀ (l : List (Nat × RR)) (s : RR), lookupLoop t l = some s →
@@ -190,8 +191,8 @@ theorem lookup_setLoop_other (t t' : Nat) (s' : RR) (hne : t' ≠ t) : ∀ (l : 
 pushed as many messages as the front has seen from it -/
 structure CInv (items : List Item) (c : CS) : Prop where
   finv : FInv (allRecords items) c.fs
-  loopOf : ∀ f ∈ c.fs.fetchers, ∃ s, lookupLoop f.tag c.loops = some s ∧ RInv (allRecords items) s ∧
-      SInv (allRecords items) f.start s ∧ f.sent = s.msgs.length ∧ f.start ≠ -1
+  loopOf : ∀ f ∈ c.fs.fetchers, ∃ s o, lookupLoop f.tag c.loops = some s ∧ RInv (allRecords items) s ∧
+      SInv (allRecords items) o f.start s ∧ f.sent = s.msgs.length ∧ ((o = f.start ∧ o ≠ -1) ∨ o = -1)
   onlyF : ∀ t s, lookupLoop t c.loops = some s → ∃ f ∈ c.fs.fetchers, f.tag = t
 
 theorem cinv_init (items : List Item) : CInv items {} :=
@@ -201,11 +202,36 @@ def optL (m : Option Rec) : List Rec := match m with | some r => [r] | none => [
 
 /-- one step of the system is a (possibly empty) sequence of steps of the front LTS -/
 theorem cstep_sim (cfg : RCfg) (items : List Item) (nb : Int) (hnb : 0 ≤ nb) (hwf : LWF nb items) {c c' : CS} {m : Option Rec}
-    {e : CEv} (h : CInv items c) (hok : e.ok items) (hs : cstep cfg items c e = some (c', m)) :
+    {e : CEv} (h : CInv items c) (hok : e.ok items) (hat : e.okAt c) (hs : cstep cfg items c e = some (c', m)) :
     CInv items c' ∧ ∃ es', frun (allRecords items) c.fs es' = some (c'.fs, optL m) ∧
-      (e.notSet → ∀ e' ∈ es', notSet e') ∧ (∀ o, e = .setOffset o → es' = [.setOffset o]) := by
+      (e.notSet → ∀ e' ∈ es', notSet e') ∧ (∀ o, e = .setOffset o → es' = [.setOffset o]) ∧
+      (∀ l, e = .setOffsetLast l → es' = [.setOffset l]) := by
   have hlog := allRecords_sorted items nb hnb hwf
   cases e with
+  | setOffsetLast l =>
+    simp only [cstep, fstep, Option.some.injEq, Prod.mk.injEq] at hs
+    obtain ⟨rfl, rfl⟩ := hs
+    have hfs : fstep (allRecords items) c.fs (.setOffset l) =
+        some ({ version := c.fs.version + 1, queue := c.fs.queue, fetchers := { tag := c.fs.version + 1, start := l } :: c.fs.fetchers,
+                accepted := 0 }, none) := rfl
+    refine ⟨⟨(finv_step h.finv hfs).1, ?_, ?_⟩, [.setOffset l], by simp [frun, fstep, optL], fun hn => absurd hn (by simp [CEv.notSet]),
+      fun o' ho' => (by cases ho'), fun l' hl' => (by cases hl'; rfl)⟩
+    · intro f hf
+      simp only [List.mem_cons] at hf
+      rcases hf with rfl | hf
+      · exact ⟨{ offset := -1 }, -1, by simp [lookupLoop], rinv_init _ (-1) (by omega), ⟨fun _ => rfl, fun st hst => by cases hst⟩, rfl,
+          Or.inr rfl⟩
+      · obtain ⟨s, o, a1, a2, a3, a4, a5⟩ := h.loopOf f hf
+        have hle := h.finv.tagle f hf
+        have hne : ¬ c.fs.version + 1 = f.tag := by omega
+        exact ⟨s, o, by simp only [lookupLoop, hne, if_false]; exact a1, a2, a3, a4, a5⟩
+    · intro t s hl
+      simp only [lookupLoop] at hl
+      by_cases ht : c.fs.version + 1 = t
+      · exact ⟨{ tag := c.fs.version + 1, start := l }, by simp, ht⟩
+      · simp only [ht, if_false] at hl
+        obtain ⟨f, hf, hft⟩ := h.onlyF t s hl
+        exact ⟨f, by simp [hf], hft⟩
   | setOffset o =>
     simp only [cstep, fstep, Option.some.injEq, Prod.mk.injEq] at hs
     obtain ⟨rfl, rfl⟩ := hs
@@ -214,15 +240,16 @@ theorem cstep_sim (cfg : RCfg) (items : List Item) (nb : Int) (hnb : 0 ≤ nb) (
         some ({ version := c.fs.version + 1, queue := c.fs.queue, fetchers := { tag := c.fs.version + 1, start := o } :: c.fs.fetchers,
                 accepted := 0 }, none) := rfl
     refine ⟨⟨(finv_step h.finv hfs).1, ?_, ?_⟩, [.setOffset o], by simp [frun, fstep, optL], fun hn => absurd hn (by simp [CEv.notSet]),
-      fun o' ho' => by cases ho'; rfl⟩
+      fun o' ho' => (by cases ho'; rfl), fun l' hl' => (by cases hl')⟩
     · intro f hf
       simp only [List.mem_cons] at hf
       rcases hf with rfl | hf
-      · exact ⟨{ offset := o }, by simp [lookupLoop], rinv_init _ o hok.1, ⟨fun _ => rfl, fun st hst => by cases hst⟩, rfl, hok.2⟩
-      · obtain ⟨s, a1, a2, a3, a4, a5⟩ := h.loopOf f hf
+      · exact ⟨{ offset := o }, o, by simp [lookupLoop], rinv_init _ o hok.1, ⟨fun _ => rfl, fun st hst => by cases hst⟩, rfl,
+          Or.inl ⟨rfl, hok.2⟩⟩
+      · obtain ⟨s, o', a1, a2, a3, a4, a5⟩ := h.loopOf f hf
         have hle := h.finv.tagle f hf
         have hne : ¬ c.fs.version + 1 = f.tag := by omega
-        exact ⟨s, by simp only [lookupLoop, hne, if_false]; exact a1, a2, a3, a4, a5⟩
+        exact ⟨s, o', by simp only [lookupLoop, hne, if_false]; exact a1, a2, a3, a4, a5⟩
     · intro t s hl
       simp only [lookupLoop] at hl
       by_cases ht : c.fs.version + 1 = t
@@ -247,7 +274,7 @@ theorem cstep_sim (cfg : RCfg) (items : List Item) (nb : Int) (hnb : 0 ≤ nb) (
           simp only [hq, Option.some.injEq, Prod.mk.injEq] at hfs
           rw [← hfs.1]
       refine ⟨⟨(finv_step h.finv hfs).1, ?_, ?_⟩, [.fetch], ?_, fun _ e' he' => by simp at he'; subst he'; simp [notSet],
-        fun o ho => by cases ho⟩
+        fun o ho => (by cases ho), fun l hl => (by cases hl)⟩
       · intro f hf
         simp only [hfet] at hf
         exact h.loopOf f hf
@@ -265,18 +292,29 @@ theorem cstep_sim (cfg : RCfg) (items : List Item) (nb : Int) (hnb : 0 ≤ nb) (
       obtain ⟨rfl, rfl⟩ := hs
       simp only [CEv.ok] at hok
       obtain ⟨f, hf, hft⟩ := h.onlyF t s hl
-      obtain ⟨s0, a1, a2, a3, a4, a5⟩ := h.loopOf f hf
+      obtain ⟨s0, o, a1, a2, a3, a4, a5⟩ := h.loopOf f hf
       rw [hft, hl] at a1
       cases a1
       obtain ⟨d, hd⟩ := rstep_msgs cfg s (worldEvent items s x)
       have hdrop : (rstep cfg s (worldEvent items s x)).msgs.drop s.msgs.length = d := by rw [hd]; simp
       rw [hdrop]
       have a2' := rinv_world_step cfg items nb hnb hwf a2 x hok
-      have a3' : SInv (allRecords items) f.start (rstep cfg s (worldEvent items s x)) := by
+      have a3' : SInv (allRecords items) o f.start (rstep cfg s (worldEvent items s x)) := by
         rcases world_good cfg items nb hnb hwf a2 x hok with hg | he
-        · exact sinv_step cfg _ a2 a3 hg
+        · refine sinv_step cfg _ a2 a3 hg ?_
+          rcases a5 with ⟨ho, hne⟩ | ho
+          · rw [← ho]; exact sinv_res_abs hne _
+          · -- a fetcher started at LastOffset: the broker reports the promised log end
+            intro f' l he hs0 _
+            have hx : x = .initOk f' l := by
+              cases x <;> simp [worldEvent] at he
+              rw [he.1, he.2]
+            subst hx
+            have := hat s hl hs0 (by rw [a3.unset hs0, ho]) f hf hft
+            rw [ho, this]
+            simp [resolve]
         · rw [he]; exact a3
-      obtain ⟨tl, htl⟩ := inv_prefix hlog a2' a3' a5
+      obtain ⟨tl, htl⟩ := inv_prefix hlog a2' a3'
       have hslice : ∀ i (hi : i < d.length), (feed (allRecords items) f.start)[f.sent + i]? = some d[i] := by
         intro i hi
         rw [← htl, hd, a4]
@@ -288,7 +326,7 @@ theorem cstep_sim (cfg : RCfg) (items : List Item) (nb : Int) (hnb : 0 ≤ nb) (
       have hfinv' : FInv (allRecords items) (pushQ c.fs t d) :=
         front_invariant_aux (allRecords items) _ _ _ _ h.finv hrun
       refine ⟨⟨hfinv', ?_, ?_⟩, List.replicate d.length (.enqueue t), by simpa [optL] using hrun,
-        fun _ e' he' => by rw [List.mem_replicate] at he'; rw [he'.2]; simp [notSet], fun o ho => by cases ho⟩
+        fun _ e' he' => by rw [List.mem_replicate] at he'; rw [he'.2]; simp [notSet], fun o ho => (by cases ho), fun l hl' => (by cases hl')⟩
       · intro g' hg'
         simp only [pushQ, List.mem_map] at hg'
         obtain ⟨g, hg, rfl⟩ := hg'
@@ -296,11 +334,11 @@ theorem cstep_sim (cfg : RCfg) (items : List Item) (nb : Int) (hnb : 0 ≤ nb) (
         · have hgf : g = f := same_tag_eq h.finv.nodup hg hf (by rw [hgt, hft])
           subst hgf
           simp only [hgt, if_true]
-          refine ⟨_, lookup_setLoop_same t _ c.loops s hl, a2', a3', ?_, a5⟩
+          refine ⟨_, o, lookup_setLoop_same t _ c.loops s hl, a2', a3', ?_, a5⟩
           rw [hd, List.length_append, ← a4]
         · simp only [hgt, if_false]
-          obtain ⟨sg, b1, b2, b3, b4, b5⟩ := h.loopOf g hg
-          exact ⟨sg, by rw [lookup_setLoop_other t g.tag _ hgt]; exact b1, b2, b3, b4, b5⟩
+          obtain ⟨sg, og, b1, b2, b3, b4, b5⟩ := h.loopOf g hg
+          exact ⟨sg, og, by rw [lookup_setLoop_other t g.tag _ hgt]; exact b1, b2, b3, b4, b5⟩
       · intro t' s' hl'
         by_cases htt : t' = t
         · subst htt
@@ -332,7 +370,7 @@ theorem crun_cons {cfg : RCfg} {items : List Item} {c c' : CS} {e : CEv} {es : L
 
 /-- every run of the system is a run of the front LTS (same messages returned by FetchMessage) -/
 theorem crun_sim (cfg : RCfg) (items : List Item) (nb : Int) (hnb : 0 ≤ nb) (hwf : LWF nb items) :
-    ∀ (es : List CEv) (c c' : CS) (ms : List Rec), CInv items c → (∀ e ∈ es, e.ok items) →
+    ∀ (es : List CEv) (c c' : CS) (ms : List Rec), CInv items c → OkRun cfg items c es →
       crun cfg items c es = some (c', ms) →
       CInv items c' ∧ ∃ es', frun (allRecords items) c.fs es' = some (c'.fs, ms) ∧
         ((∀ e ∈ es, e.notSet) → ∀ e' ∈ es', notSet e') := by
@@ -346,8 +384,9 @@ theorem crun_sim (cfg : RCfg) (items : List Item) (nb : Int) (hnb : 0 ≤ nb) (h
   | cons e es ih =>
     intro c c' ms h hok hr
     obtain ⟨c1, m, ms', hs, hq, rfl⟩ := crun_cons hr
-    obtain ⟨h1, es1, hf1, hn1, _⟩ := cstep_sim cfg items nb hnb hwf h (hok e (by simp)) hs
-    obtain ⟨h2, es2, hf2, hn2⟩ := ih c1 c' ms' h1 (fun x hx => hok x (by simp [hx])) hq
+    obtain ⟨hok1, hok2, hok3⟩ := hok
+    obtain ⟨h1, es1, hf1, hn1, _⟩ := cstep_sim cfg items nb hnb hwf h hok1 hok2 hs
+    obtain ⟨h2, es2, hf2, hn2⟩ := ih c1 c' ms' h1 (hok3 c1 m hs) hq
     refine ⟨h2, es1 ++ es2, ?_, ?_⟩
     · rw [frun_append, hf1]; simp only [hf2]
     · intro hns e' he'
@@ -359,20 +398,43 @@ theorem crun_sim (cfg : RCfg) (items : List Item) (nb : Int) (hnb : 0 ≤ nb) (h
 /-- after `SetOffset(o)`, along any run of the whole system without a further SetOffset, the front LTS makes the same
 run -/
 theorem crun_after_set (cfg : RCfg) (items : List Item) (nb : Int) (hnb : 0 ≤ nb) (hwf : LWF nb items) (c0 c' : CS)
-    (h0 : CInv items c0) (o : Int) (ho : -2 ≤ o ∧ o ≠ -1) (es : List CEv) (hok : ∀ e ∈ es, e.ok items)
+    (h0 : CInv items c0) (o : Int) (es : List CEv) (hok : OkRun cfg items c0 (.setOffset o :: es))
     (hns : ∀ e ∈ es, e.notSet) (ms : List Rec) (hr : crun cfg items c0 (.setOffset o :: es) = some (c', ms)) :
     ∃ es', (∀ e' ∈ es', notSet e') ∧ frun (allRecords items) c0.fs (.setOffset o :: es') = some (c'.fs, ms) := by
   obtain ⟨c1, m, ms', hs, hq, rfl⟩ := crun_cons hr
-  obtain ⟨h1, es1, hf1, _, he1⟩ := cstep_sim cfg items nb hnb hwf h0 (e := .setOffset o) ho hs
+  obtain ⟨hok1, hok2, hok3⟩ := hok
+  obtain ⟨h1, es1, hf1, _, he1, _⟩ := cstep_sim cfg items nb hnb hwf h0 (e := .setOffset o) hok1 hok2 hs
   have := he1 o rfl
   subst this
   have hm : m = none := by
     simp only [cstep, fstep, Option.some.injEq, Prod.mk.injEq] at hs
     exact hs.2.symm
   subst hm
-  obtain ⟨_, es2, hf2, hn2⟩ := crun_sim cfg items nb hnb hwf es c1 c' ms' h1 hok hq
+  obtain ⟨_, es2, hf2, hn2⟩ := crun_sim cfg items nb hnb hwf es c1 c' ms' h1 (hok3 c1 none hs) hq
   refine ⟨es2, hn2 hns, ?_⟩
   have := frun_append (allRecords items) [.setOffset o] es2 c0.fs
+  simp only [List.singleton_append] at this
+  rw [this, hf1]
+  simp only [hf2, optL, List.nil_append]
+
+/-- … and after `SetOffset(LastOffset)`: the front LTS makes the same run with a fetcher started at the log end `l` the
+broker reports to it -/
+theorem crun_after_set_last (cfg : RCfg) (items : List Item) (nb : Int) (hnb : 0 ≤ nb) (hwf : LWF nb items) (c0 c' : CS)
+    (h0 : CInv items c0) (l : Int) (es : List CEv) (hok : OkRun cfg items c0 (.setOffsetLast l :: es))
+    (hns : ∀ e ∈ es, e.notSet) (ms : List Rec) (hr : crun cfg items c0 (.setOffsetLast l :: es) = some (c', ms)) :
+    ∃ es', (∀ e' ∈ es', notSet e') ∧ frun (allRecords items) c0.fs (.setOffset l :: es') = some (c'.fs, ms) := by
+  obtain ⟨c1, m, ms', hs, hq, rfl⟩ := crun_cons hr
+  obtain ⟨hok1, hok2, hok3⟩ := hok
+  obtain ⟨h1, es1, hf1, _, _, he1⟩ := cstep_sim cfg items nb hnb hwf h0 (e := .setOffsetLast l) hok1 hok2 hs
+  have := he1 l rfl
+  subst this
+  have hm : m = none := by
+    simp only [cstep, fstep, Option.some.injEq, Prod.mk.injEq] at hs
+    exact hs.2.symm
+  subst hm
+  obtain ⟨_, es2, hf2, hn2⟩ := crun_sim cfg items nb hnb hwf es c1 c' ms' h1 (hok3 c1 none hs) hq
+  refine ⟨es2, hn2 hns, ?_⟩
+  have := frun_append (allRecords items) [.setOffset l] es2 c0.fs
   simp only [List.singleton_append] at this
   rw [this, hf1]
   simp only [hf2, optL, List.nil_append]
@@ -414,19 +476,23 @@ structure AInv (items : List Item) (a : AS) : Prop where
   posok : -2 ≤ a.pos ∧ a.pos ≠ -1
   cur : a.c.fs.version ≠ 0 → ∃ f ∈ a.c.fs.fetchers, f.tag = a.c.fs.version ∧
     (feed (allRecords items) f.start).drop a.c.fs.accepted = feed (allRecords items) a.pos
+  /-- no fetcher of this layer is started at LastOffset -/
+  nolast : ∀ t s, lookupLoop t a.c.loops = some s → s.start = none → s.offset ≠ -1
 
 theorem ainv_init (items : List Item) (o : Int) (ho : -2 ≤ o ∧ o ≠ -1) : AInv items { pos := o } :=
-  ⟨cinv_init items, ho, fun h => absurd rfl h⟩
+  ⟨cinv_init items, ho, fun h => absurd rfl h, by intro t s h; simp [lookupLoop] at h⟩
 
 /-- what the three calls do, seen by the application -/
 def ASpec (items : List Item) (a : AS) (e : AEv) (a' : AS) (m : Option Rec) : Prop :=
   match e with
-  | .setOffset o => a'.pos = o ∧ m = none
-  | .env _ _ => a'.pos = a.pos ∧ m = none
+  | .close => a'.pos = a.pos ∧ m = none ∧ a'.closed = true
+  | .setOffset o => if a.closed then a' = a ∧ m = none else a'.pos = o ∧ m = none ∧ a'.closed = false
+  | .env _ _ => a'.pos = a.pos ∧ m = none ∧ a'.closed = a.closed
   | .fetch =>
-    match m with
-    | some r => (feed (allRecords items) a.pos).head? = some r ∧ a'.pos = r.1 + 1
-    | none => a'.pos = a.pos
+    if a.closed then a' = a ∧ m = none     -- io.EOF: nothing is handed out after Close
+    else match m with
+      | some r => (feed (allRecords items) a.pos).head? = some r ∧ a'.pos = r.1 + 1 ∧ a'.closed = false
+      | none => a'.pos = a.pos ∧ a'.closed = false
 
 theorem cstep_set (cfg : RCfg) (items : List Item) (c : CS) (o : Int) :
     cstep cfg items c (.setOffset o) =
@@ -439,29 +505,49 @@ theorem astep_inv (cfg : RCfg) (items : List Item) (nb : Int) (hnb : 0 ≤ nb) (
     {e : AEv} (h : AInv items a) (hok : e.ok items) (hs : astep cfg items a e = some (a', m)) :
     AInv items a' ∧ ASpec items a e a' m := by
   have hlog := allRecords_sorted items nb hnb hwf
-  have hstart : ∀ o, -2 ≤ o ∧ o ≠ -1 →
-      AInv items { c := { fs := { version := a.c.fs.version + 1, queue := a.c.fs.queue,
-                                  fetchers := { tag := a.c.fs.version + 1, start := o } :: a.c.fs.fetchers, accepted := 0 },
-                          loops := (a.c.fs.version + 1, { offset := o }) :: a.c.loops }, pos := o } := by
-    intro o ho
-    have hc := (cstep_sim cfg items nb hnb hwf h.cinv (e := .setOffset o) ho (cstep_set cfg items a.c o)).1
-    exact ⟨hc, ho, fun _ => ⟨{ tag := a.c.fs.version + 1, start := o }, by simp, rfl, by simp⟩⟩
+  have hstart : ∀ o, -2 ≤ o ∧ o ≠ -1 → ∀ x : AS,
+      x.c = { fs := { version := a.c.fs.version + 1, queue := a.c.fs.queue,
+                      fetchers := { tag := a.c.fs.version + 1, start := o } :: a.c.fs.fetchers, accepted := 0 },
+              loops := (a.c.fs.version + 1, { offset := o }) :: a.c.loops } → x.pos = o → AInv items x := by
+    intro o ho x hxc hxp
+    have hc := (cstep_sim cfg items nb hnb hwf h.cinv (e := .setOffset o) ho trivial (cstep_set cfg items a.c o)).1
+    refine ⟨by rw [hxc]; exact hc, by rw [hxp]; exact ho, fun _ => ?_, ?_⟩
+    · rw [hxc, hxp]
+      exact ⟨{ tag := a.c.fs.version + 1, start := o }, by simp, rfl, by simp⟩
+    · intro t s hl hs0
+      rw [hxc] at hl
+      simp only [lookupLoop] at hl
+      by_cases ht : a.c.fs.version + 1 = t
+      · simp only [ht, if_true, Option.some.injEq] at hl
+        rw [← hl]; exact ho.2
+      · simp only [ht, if_false] at hl
+        exact h.nolast t s hl hs0
   cases e with
+  | close =>
+    simp only [astep, Option.some.injEq, Prod.mk.injEq] at hs
+    obtain ⟨rfl, rfl⟩ := hs
+    exact ⟨⟨h.cinv, h.posok, h.cur, h.nolast⟩, by simp [ASpec]⟩
   | setOffset o =>
     simp only [AEv.ok] at hok
     simp only [astep] at hs
+    by_cases hcl : a.closed = true
+    · simp only [hcl, if_true, Option.some.injEq, Prod.mk.injEq] at hs
+      obtain ⟨rfl, rfl⟩ := hs
+      exact ⟨h, by simp [ASpec, hcl]⟩
+    have hcl' : a.closed = false := by simpa using hcl
+    simp only [hcl', Bool.false_eq_true, if_false] at hs
     by_cases h1 : o = a.pos
     · simp only [h1, if_true, Option.some.injEq, Prod.mk.injEq] at hs
       obtain ⟨rfl, rfl⟩ := hs
-      exact ⟨h, by simp [ASpec, h1]⟩
+      exact ⟨h, by simp [ASpec, h1, hcl']⟩
     · simp only [h1, if_false] at hs
       by_cases h2 : a.c.fs.version = 0
       · simp only [h2, if_true, Option.some.injEq, Prod.mk.injEq] at hs
         obtain ⟨rfl, rfl⟩ := hs
-        exact ⟨⟨h.cinv, hok, fun hv => absurd h2 hv⟩, by simp [ASpec]⟩
+        exact ⟨⟨h.cinv, hok, fun hv => absurd h2 hv, h.nolast⟩, by simp [ASpec, hcl']⟩
       · simp only [h2, if_false, cstep_set, Option.some.injEq, Prod.mk.injEq] at hs
         obtain ⟨rfl, rfl⟩ := hs
-        exact ⟨hstart o hok, by simp [ASpec]⟩
+        exact ⟨hstart o hok _ rfl rfl, by simp [ASpec, hcl']⟩
   | env t x =>
     simp only [AEv.ok] at hok
     simp only [astep] at hs
@@ -471,8 +557,11 @@ theorem astep_inv (cfg : RCfg) (items : List Item) (nb : Int) (hnb : 0 ≤ nb) (
       obtain ⟨c', m'⟩ := p
       simp only [hc, Option.some.injEq, Prod.mk.injEq] at hs
       obtain ⟨rfl, rfl⟩ := hs
-      obtain ⟨hc', _⟩ := cstep_sim cfg items nb hnb hwf h.cinv (e := .env t x) hok hc
-      refine ⟨⟨hc', h.posok, ?_⟩, by simp [ASpec]⟩
+      have hat : (CEv.env t x).okAt a.c := by
+        cases x <;> simp only [CEv.okAt]
+        intro s hl hs0 ho
+        exact absurd ho (h.nolast t s hl hs0)
+      obtain ⟨hc', _⟩ := cstep_sim cfg items nb hnb hwf h.cinv (e := .env t x) hok hat hc
       -- the front part: version, accepted and the fetchers' start offsets are untouched
       simp only [cstep] at hc
       cases hl : lookupLoop t a.c.loops with
@@ -480,6 +569,27 @@ theorem astep_inv (cfg : RCfg) (items : List Item) (nb : Int) (hnb : 0 ≤ nb) (
       | some s =>
         simp only [hl, Option.some.injEq, Prod.mk.injEq] at hc
         obtain ⟨rfl, _⟩ := hc
+        refine ⟨⟨hc', h.posok, ?_, ?_⟩, by simp [ASpec]⟩
+        rotate_left
+        · -- no loop turns into one started at LastOffset
+          intro t' s' hl' hs0'
+          by_cases htt : t' = t
+          · subst htt
+            rw [lookup_setLoop_same t' _ a.c.loops s hl] at hl'
+            cases hl'
+            obtain ⟨f, hf, hft⟩ := h.cinv.onlyF t' s hl
+            obtain ⟨s1, o1, b1, b2, _⟩ := h.cinv.loopOf f hf
+            rw [hft, hl] at b1
+            cases b1
+            rcases rstep_start cfg s (worldEvent items s x) with h1 | ⟨_, f', l', _, h2⟩
+            · have hs0 : s.start = none := by rw [← h1]; exact hs0'
+              have hnr : s.phase ≠ .reading := fun hr => (b2.conn hr).1 hs0
+              rcases rstep_offset_top cfg s (worldEvent items s x) hnr with h3 | h3
+              · rw [h3]; exact h.nolast t' s hl hs0
+              · exact absurd hs0' h3
+            · rw [h2] at hs0'; cases hs0'
+          · rw [lookup_setLoop_other t t' _ htt] at hl'
+            exact h.nolast t' s' hl' hs0'
         intro hv
         obtain ⟨f, hf, hft, hfd⟩ := h.cur hv
         refine ⟨if f.tag = t then { f with sent := f.sent + ((rstep cfg s (worldEvent items s x)).msgs.drop s.msgs.length).length } else f,
@@ -489,12 +599,16 @@ theorem astep_inv (cfg : RCfg) (items : List Item) (nb : Int) (hnb : 0 ≤ nb) (
         · split <;> exact hfd
   | fetch =>
     simp only [astep] at hs
+    by_cases hcl : a.closed = true
+    · simp only [hcl, if_true, Option.some.injEq, Prod.mk.injEq] at hs
+      obtain ⟨rfl, rfl⟩ := hs
+      exact ⟨h, by simp [ASpec, hcl]⟩
+    have hcl' : a.closed = false := by simpa using hcl
+    simp only [hcl', Bool.false_eq_true, if_false] at hs
     by_cases h2 : a.c.fs.version = 0
     · simp only [h2, if_true, cstep_set, Option.some.injEq, Prod.mk.injEq] at hs
       obtain ⟨rfl, rfl⟩ := hs
-      have := hstart a.pos h.posok
-      simp only [h2] at this
-      exact ⟨this, by simp [ASpec]⟩
+      exact ⟨hstart a.pos h.posok _ (by simp [h2]) rfl, by simp [ASpec, hcl']⟩
     · simp only [h2, if_false] at hs
       cases hc : cstep cfg items a.c .fetch with
       | none => simp [hc] at hs
@@ -502,7 +616,7 @@ theorem astep_inv (cfg : RCfg) (items : List Item) (nb : Int) (hnb : 0 ≤ nb) (
         obtain ⟨c2, m'⟩ := p
         simp only [hc, Option.some.injEq, Prod.mk.injEq] at hs
         obtain ⟨rfl, rfl⟩ := hs
-        obtain ⟨hc', _⟩ := cstep_sim cfg items nb hnb hwf h.cinv (e := .fetch) trivial hc
+        obtain ⟨hc', _⟩ := cstep_sim cfg items nb hnb hwf h.cinv (e := .fetch) trivial trivial hc
         obtain ⟨f, hf, hft, hfd⟩ := h.cur h2
         simp only [cstep] at hc
         cases hfs : fstep (allRecords items) a.c.fs .fetch with
@@ -534,13 +648,13 @@ theorem astep_inv (cfg : RCfg) (items : List Item) (nb : Int) (hnb : 0 ≤ nb) (
               simp only [feed, List.mem_filter] at this
               exact this.1
             have hr0 := records_ge hwf r hrec
-            refine ⟨⟨hc', ⟨by simp only; omega, by simp only; omega⟩, ?_⟩, ?_⟩
+            refine ⟨⟨hc', ⟨by simp only; omega, by simp only; omega⟩, ?_, h.nolast⟩, ?_⟩
             · intro _
               refine ⟨f, hf, hft, ?_⟩
               simp only
               rw [← htail, ← List.drop_drop, hfd, hhead]
               simp
-            · simp only [ASpec, and_true]
+            · simp only [ASpec, hcl', Bool.false_eq_true, if_false, and_true]
               rw [hhead]; rfl
 
 end KV.C02
@@ -571,5 +685,129 @@ theorem arun_inv (cfg : RCfg) (items : List Item) (nb : Int) (hnb : 0 ≤ nb) (h
         simp only [hq, Option.some.injEq, Prod.mk.injEq] at hr
         rw [← hr.1]
         exact ih a1 a2 ms' (astep_inv cfg items nb hnb hwf h (hok e (by simp)) hs).1 (fun x hx => hok x (by simp [hx])) hq
+
+end KV.C02
+
+namespace KV.C02
+
+/-! ### no starvation -/
+
+/-- everything stored at or above the start offset has been pushed -/
+def Done (log : List Rec) (s : RR) : Prop := ∃ st, s.start = some st ∧ ∀ r ∈ log, st ≤ r.1 → r ∈ s.msgs
+
+theorem done_step (cfg : RCfg) {log : List Rec} {s : RR} (e : REv) (h : Done log s) : Done log (rstep cfg s e) := by
+  obtain ⟨st, hst, hall⟩ := h
+  obtain ⟨d, hd⟩ := rstep_msgs cfg s e
+  refine ⟨st, ?_, ?_⟩
+  · rcases rstep_start cfg s e with h1 | ⟨h1, _⟩
+    · rw [h1]; exact hst
+    · rw [hst] at h1; cases h1
+  · intro r hr h1
+    rw [hd]
+    exact List.mem_append_left _ (hall r hr h1)
+
+theorem done_of_passed {log : List Rec} {s : RR} (h : RInv log s) (hr : s.phase = .reading) (hall : ∀ r ∈ log, r.1 < s.connOff) :
+    Done log s := by
+  obtain ⟨hst, _, hgap⟩ := h.conn hr
+  cases hs : s.start with
+  | none => exact absurd hs hst
+  | some st =>
+    refine ⟨st, hs, ?_⟩
+    intro r hrl h1
+    by_cases hlt : r.1 < s.offset
+    · exact (h.bounds st hs).2.2.2 r hrl h1 hlt
+    · exact absurd (hgap r hrl (by omega) (hall r hrl)) id
+
+theorem rstep_sleep_reading (cfg : RCfg) (s : RR) (hp : s.phase = .reading) :
+    (rstep cfg s .sleepOk).phase = .reading ∧ (rstep cfg s .sleepOk).connOff = s.connOff ∧ (rstep cfg s .sleepOk).slept = true := by
+  cases hs : s.slept <;> simp [rstep, hp, hs]
+
+theorem dropBefore_mem (q : Int) : ∀ (items : List Item) (it : Item), it ∈ dropBefore q items → it ∈ items := by
+  intro items
+  induction items with
+  | nil => intro it h; simp [dropBefore] at h
+  | cons x rest ih =>
+    intro it h
+    simp only [dropBefore] at h
+    split at h
+    · exact List.mem_cons_of_mem _ (ih it h)
+    · exact h
+
+/-- **no starvation**: however far behind the loop is, `k` fault-free rounds (sleep, fetch — any byte budgets, deadline
+passed or not) with `k` at least the number of stored batches / messages from the connection's position on deliver every
+stored record from the start offset on -/
+theorem catch_up (cfg : RCfg) (items : List Item) (nb : Int) (hnb : 0 ≤ nb) (hwf : LWF nb items) (hwm : Int)
+    (hh : ∀ it ∈ items, it.last < hwm) :
+    ∀ (moves : List (Nat × Bool)) (s : RR), RInv (allRecords items) s →
+      (Done (allRecords items) s ∨ (s.phase = .reading ∧ (dropBefore s.connOff items).length ≤ moves.length)) →
+      Done (allRecords items) (worldRun cfg items s (moves.flatMap fun m => [Env.sleepOk, Env.fetch m.1 hwm m.2])) := by
+  intro moves
+  induction moves with
+  | nil =>
+    intro s h hc
+    simp only [List.flatMap_nil, worldRun]
+    rcases hc with hd | ⟨hr, hl⟩
+    · exact hd
+    · have : dropBefore s.connOff items = [] := List.eq_nil_of_length_eq_zero (by simpa using hl)
+      exact done_of_passed h hr (dropBefore_nil_all hwf _ this)
+  | cons mv moves ih =>
+    intro s h hc
+    obtain ⟨b, e⟩ := mv
+    simp only [List.flatMap_cons, List.cons_append, List.nil_append, worldRun]
+    have h1 := rinv_world_step cfg items nb hnb hwf h .sleepOk trivial
+    have h2 := rinv_world_step cfg items nb hnb hwf h1 (.fetch b hwm e) trivial
+    apply ih _ h2
+    have hdone : Done (allRecords items) s → Done (allRecords items)
+        (rstep cfg (rstep cfg s (worldEvent items s .sleepOk)) (worldEvent items (rstep cfg s (worldEvent items s .sleepOk)) (.fetch b hwm e))) :=
+      fun hd => done_step cfg _ (done_step cfg _ hd)
+    rcases hc with hd | ⟨hr, hl⟩
+    · exact Or.inl (hdone hd)
+    · cases hsub : dropBefore s.connOff items with
+      | nil => exact Or.inl (hdone (done_of_passed h hr (dropBefore_nil_all hwf _ hsub)))
+      | cons it rest =>
+        right
+        obtain ⟨p1, p2, p3⟩ := rstep_sleep_reading cfg s hr
+        simp only [worldEvent] at p1 p2 p3 ⊢
+        -- the state after the sleep
+        obtain ⟨s1, hs1⟩ : ∃ s1, s1 = rstep cfg s .sleepOk := ⟨_, rfl⟩
+        rw [← hs1] at p1 p2 p3 ⊢
+        have hq : 0 ≤ s.connOff := by
+          obtain ⟨hst, hoc, _⟩ := h.conn hr
+          cases hs : s.start with
+          | none => exact absurd hs hst
+          | some st => have := h.bounds st hs; omega
+        obtain ⟨d1, d2, d3, d4⟩ := dropBefore_spec s.connOff hwf
+        have hlast := d4 it rest hsub
+        have hitm : it ∈ items := dropBefore_mem s.connOff items it (by rw [hsub]; simp)
+        have hne : hwm ≠ s.connOff := by have := hh it hitm; omega
+        have hsz : it.size ≤ serveBudget (dropBefore s.connOff items) b := by rw [hsub]; simp only [serveBudget]; omega
+        obtain ⟨f1, f2, f3, f4, f5⟩ := fetch_round_gen items nb hnb hwf hwm s.connOff hq e (serveBudget (dropBefore s.connOff items) b)
+        obtain ⟨g1, _, g3⟩ := f5 (by intro it' rest' h'; rw [hsub] at h'; cases h'; exact hsz)
+        have hprog := g3 hne it rest hsub
+        have hnu : (readAll .fixed e s.connOff hwm (truncate (allTokens (dropBefore s.connOff items)) (serveBudget (dropBefore s.connOff items) b))).2.2
+            ≠ .unexpectedEOF := by
+          rw [hsub] at d1 ⊢
+          exact fetch_whole_started nb it rest d1 e s.connOff hwm hne _ (by rw [hsub] at hsz; exact hsz)
+        simp only [serve, p2]
+        rw [fetch_round_pull items nb hnb hwf hwm s.connOff hq e _]
+        -- the round
+        obtain ⟨res, hres⟩ : ∃ res, res = readAll .fixed e s.connOff hwm
+            (truncate (allTokens (dropBefore s.connOff items)) (serveBudget (dropBefore s.connOff items) b)) := ⟨_, rfl⟩
+        rw [← hres] at f4 hprog hnu ⊢
+        have hstep : (rstep cfg s1 (.data res.1 res.2.1 res.2.2)).phase = .reading ∧
+            (rstep cfg s1 (.data res.1 res.2.1 res.2.2)).connOff = res.2.1 := by
+          cases hoc : res.2.2 with
+          | eof => simp [rstep, p1, p3, again, pushMsgs]
+          | timedOut => simp [rstep, p1, p3, again, pushMsgs]
+          | unexpectedEOF => exact absurd hoc hnu
+          | desync => exact absurd hoc f4
+        refine ⟨hstep.1, ?_⟩
+        rw [hstep.2, ← dropBefore_trans s.connOff res.2.1 (by omega) items, hsub]
+        have : it.last < res.2.1 := by omega
+        simp only [dropBefore, this, if_true]
+        have := dropBefore_length_le res.2.1 rest
+        rw [hsub] at hl
+        simp only [List.length_cons] at hl
+        omega
 
 end KV.C02
